@@ -47,6 +47,10 @@ pub struct TestSpec {
     pub sleep_ms: u64,
     /// inline `detached: true` (Markdown only)
     pub detached: bool,
+    /// inline `wait: <duration>` (Markdown only): scrut sleeps that long before it starts the
+    /// command; the sleep counts against the document limit
+    #[serde(default)]
+    pub wait_ms: Option<u64>,
 }
 
 impl TestSpec {
@@ -61,6 +65,7 @@ impl TestSpec {
             timeout_ms: None,
             sleep_ms: 0,
             detached: false,
+            wait_ms: None,
         }
     }
 }
@@ -207,7 +212,9 @@ pub enum DocEnd {
     Skipped { by: usize },
     /// `attributed`: the timeout result belongs to test `at` (Markdown); otherwise (Cram) only
     /// "at least one timeout, the rest skipped" is claimed
-    TimedOut { at: usize, attributed: bool },
+    /// `or_next`: the document limit ran out while scrut waited (`wait`) before test `at`; the
+    /// statements do not decide whether `at` or the test case after it is the aborted one
+    TimedOut { at: usize, attributed: bool, or_next: bool },
     Aborted(&'static str),
 }
 
@@ -433,11 +440,23 @@ fn finalize(seq: &mut [TestModel], base: &[Option<Class>], end: &DocEnd, ran_upt
                 t.max = 1;
             }
         }
-        DocEnd::TimedOut { at, attributed } => {
+        DocEnd::TimedOut { at, attributed, or_next } => {
             fails = true;
             for (i, t) in seq.iter_mut().enumerate() {
                 t.min = if t.detached { 0 } else { 1 };
                 t.max = 1;
+                if *or_next && (i == *at || i == *at + 1) {
+                    t.run = Run::May;
+                    t.classes = vec![Class::Timeout, Class::Fail];
+                    if i == *at {
+                        t.classes.extend(base[i]);
+                    } else {
+                        t.classes.push(Class::Skipped);
+                    }
+                    t.classes.sort();
+                    t.classes.dedup();
+                    continue;
+                }
                 if i < *at {
                     t.run = Run::Must;
                     t.classes = if t.detached {
@@ -476,6 +495,7 @@ impl DocModel {
         d.end = DocEnd::TimedOut {
             at,
             attributed: !self.script,
+            or_next: false,
         };
         d.fails = finalize(&mut d.seq, &self.base, &d.end, at);
         d
@@ -533,7 +553,7 @@ fn model_doc(run: &RunSpec, doc: &DocSpec) -> Result<DocModel, Undecided> {
         if run.cram_compat && tests.iter().any(|(r, _)| *r != Role::Own) {
             return Err("includes under --cram-compat".into());
         }
-        if tests.iter().any(|(_, t)| t.detached || t.timeout_ms.is_some()) {
+        if tests.iter().any(|(_, t)| t.detached || t.timeout_ms.is_some() || t.wait_ms.is_some()) {
             return Err("detached test case / per-test timeout in a script".into());
         }
     }
@@ -564,11 +584,44 @@ fn model_doc(run: &RunSpec, doc: &DocSpec) -> Result<DocModel, Undecided> {
                 }
             }
             if t.detached {
-                if t.sleep_ms > 0 || t.timeout_ms.is_some() {
+                if t.sleep_ms > 0 || t.timeout_ms.is_some() || t.wait_ms.is_some() {
                     return Err("detached test case with timing".into());
                 }
                 // not waited for: no exit code observed, no result
                 continue;
+            }
+            // `wait`: scrut sleeps before it starts the command, after the limit for the command
+            // has been fixed; the sleep uses up document time
+            if let Some(w) = t.wait_ms {
+                if script || t.timeout_ms.is_some() || t.sleep_ms > 0 {
+                    return Err("wait combined with script mode / per-test timeout / sleep".into());
+                }
+                match limit {
+                    None => {}
+                    Some(l) if w >= l => {
+                        // the sleep alone is at least the whole document limit: the budget is
+                        // certainly gone when the wait ends. Decided only when another plain
+                        // test case follows (otherwise nothing "after" can show it)
+                        let rest = &tests[i + 1..];
+                        if rest.is_empty() || rest.iter().any(|(_, r)| r.detached || r.wait_ms.is_some()) {
+                            return Err("document budget used up by the wait of the last test case".into());
+                        }
+                        if elapsed > 0 {
+                            return Err("wait after a sleeping test case".into());
+                        }
+                        fragile = true;
+                        end = DocEnd::TimedOut {
+                            at: i,
+                            attributed: true,
+                            or_next: true,
+                        };
+                        ran_upto = i;
+                        break;
+                    }
+                    Some(l) if l >= 20_000 && w.saturating_mul(8) <= l => {}
+                    Some(l) => return Err(format!("wait of {w} ms under a document limit of {l} ms is not separated")),
+                }
+                elapsed += w;
             }
             // timing: the smallest applicable limit
             let remaining = limit.map(|l| l.saturating_sub(elapsed));
@@ -581,6 +634,7 @@ fn model_doc(run: &RunSpec, doc: &DocSpec) -> Result<DocModel, Undecided> {
                     end = DocEnd::TimedOut {
                         at: i,
                         attributed: !script,
+                        or_next: false,
                     };
                     ran_upto = i;
                     break;
